@@ -478,7 +478,11 @@ func c08OnBoundary(cum []int, k int) bool {
 }
 
 // c08ReadAll reads messages from a real Protocol until the first error.
+// The messages are HELD and rendered only after the failing read returned: "the messages returned before the
+// failure are exactly those completely transferred" is about what the application still has in its hands then —
+// a later (partial) read must not have written into an earlier message.
 func c08ReadAll(p *rtmp.Protocol, max int) (got []string, err error, status string) {
+	var held []*rtmp.Message
 	status = h.Safe(func() string {
 		for i := 0; i < max; i++ {
 			var m *rtmp.Message
@@ -492,14 +496,17 @@ func c08ReadAll(p *rtmp.Protocol, max int) (got []string, err error, status stri
 			if m == nil {
 				return "nil-message-nil-error"
 			}
-			cid, ty, sid, ts, plen := rtmp.VerifMessageFields(m)
-			if int(plen) != len(m.Payload) {
-				return "bad-length-field"
-			}
-			got = append(got, fmt.Sprintf("%d.%d.%d.%d.%s", cid, ty, sid, ts, h.Hex(m.Payload)))
+			held = append(held, m)
 		}
 		return "no-error"
 	})
+	for _, m := range held {
+		cid, ty, sid, ts, plen := rtmp.VerifMessageFields(m)
+		if int(plen) != len(m.Payload) {
+			return got, err, "bad-length-field"
+		}
+		got = append(got, fmt.Sprintf("%d.%d.%d.%d.%s", cid, ty, sid, ts, h.Hex(m.Payload)))
+	}
 	return
 }
 
